@@ -18,6 +18,9 @@ type node struct {
 	content  int // files: content id (see fileContent)
 	target   string
 	entries  map[string]*node
+	// shadow trees only: how long after the command's exit the descriptor this file was
+	// written through is closed, in ms (0: the file was closed when it was created)
+	lingerMs int
 }
 
 func newDir() *node { return &node{kind: 'd', readable: true, entries: map[string]*node{}} }
